@@ -470,9 +470,9 @@ func TestVerifC01(t *testing.T) {
 			continue
 		}
 		tokens := randomTokens(r, g, feedNames, c.Pick(80, 200), false)
-		for i := 3; i < len(tokens); i += 5 {
+		for i := 2; i < len(tokens); i += 3 {
 			// the first link of whatever is highlighted then (hostile addresses are in the bodies) is opened with the hook
-			tokens[i] = tok("number 1 then \"\\r\"", []string{"1\r", "1\r", "2\r", "o"}[r.Intn(4)])
+			tokens[i] = tok("number 1 then \"\\r\"", []string{"1\r", "1\r", "1\r", "2\r", "o"}[r.Intn(5)])
 		}
 		for _, tk := range tokens {
 			stop := false
@@ -540,13 +540,13 @@ func decorateHostile(g *world.Generated, r *rand.Rand, all []payload) {
 		}
 	}
 	pickRef := func() string {
-		if len(refs) == 0 || r.Intn(3) == 0 {
+		if len(refs) == 0 || r.Intn(6) == 0 {
 			return pick()
 		}
 		return refs[r.Intn(len(refs))]
 	}
 	for _, n := range g.Nodes {
-		if r.Intn(3) > 0 {
+		if r.Intn(3) > 0 && !(n.Kind == "post" && r.Intn(2) == 0) {
 			continue
 		}
 		switch n.Kind {
